@@ -88,7 +88,7 @@ func TestVerif_C15(t *testing.T) {
 	}
 	defer sim.Close()
 	d := newVerifSDriver(sim, rng)
-	steps := r.N(150, 1500)
+	steps := r.N(150, 1000)
 	maxBatch := r.N(24, 255)
 	var finalizedPool []*common.VersionedTransaction
 	otherTopoTs := map[crypto.Hash]uint64{}
@@ -257,16 +257,19 @@ func TestVerif_C15(t *testing.T) {
 				bad, _ = d.w.Deposit(d.assets[1], big.NewInt(int64(1+rng.Intn(1e6)))) // never admitted
 			case 1:
 				why = "output-key-owned-elsewhere"
-				tx, _, ins := d.w.Transfer(1, 1, true)
+				// one of up to three outputs (first, middle or last) carries a key that belongs to another transaction
+				tx, _, ins := d.w.Transfer(1, 1+rng.Intn(3), true)
 				if tx == nil {
 					continue
 				}
+				taken := rng.Intn(len(tx.Outputs))
+				r.Count(fmt.Sprintf("output-key-owned-elsewhere_output_%d_of_%d", taken, len(tx.Outputs)), 1)
 				inputs := []*common.Input{}
 				for _, in := range ins {
 					inputs = append(inputs, &common.Input{Hash: in.Hash, Index: in.Index})
 				}
 				other := crypto.Blake3Hash([]byte(fmt.Sprint("other-owner", step)))
-				if err := sim.Store.LockGhostKeys(tx.Outputs[0].Keys, other, false); err != nil {
+				if err := sim.Store.LockGhostKeys(tx.Outputs[taken].Keys, other, false); err != nil {
 					continue
 				}
 				if err := sim.Store.LockUTXOs(inputs, tx.PayloadHash(), false); err != nil {
@@ -362,10 +365,12 @@ func TestVerif_C15(t *testing.T) {
 								map[string]any{"why": why, "position": pos, "batch": len(members), "output": i})
 						}
 					}
-					for _, k := range mtx.Outputs[0].Keys {
-						owner, _ := sim.Store.ReadGhostKeyLock(*k)
-						if owner == nil || *owner != h {
-							r.Violation("C15|partial-success|output-key-not-bound|"+why, "a snapshot write returned success but an output key of a member is bound to another transaction", map[string]any{"why": why})
+					for _, o := range mtx.Outputs {
+						for _, k := range o.Keys {
+							owner, _ := sim.Store.ReadGhostKeyLock(*k)
+							if owner == nil || *owner != h {
+								r.Violation("C15|partial-success|output-key-not-bound|"+why, "a snapshot write returned success but an output key of a member is bound to another transaction", map[string]any{"why": why})
+							}
 						}
 					}
 				}
